@@ -142,10 +142,10 @@ def observe(case: Dict[str, Any]) -> Dict[str, Any]:
     logging.disable(logging.CRITICAL)
     try:
         rec = build_record(case)
+        bio = rec.to_biopython()
     except Exception as exc:  # pylint: disable=broad-except
         # the layout could not be turned into a record (other properties' business): nothing to check
         return {"build_err": err_kind(exc), "msg": str(exc)[:200]}
-    bio = rec.to_biopython()
     for i, feature in enumerate(bio.features):
         feature.qualifiers[SRC] = [str(i)]
     parent = bio_features(bio)
